@@ -166,7 +166,7 @@ def client_term(case, res, chunks=None):
 
 def prim_term(p):
     kind, hx, r = p
-    s = chex(hx)
+    s = chex(hx) if kind != "sameorigin" else None
     if kind == "splitlines": return "(PcSplitlines %s %s)" % (s, clist(r, cl))
     if kind == "strip": return "(PcStrip %s %s)" % (s, cl(r))
     if kind == "lower": return "(PcLower %s %s)" % (s, cl(r))
@@ -176,6 +176,20 @@ def prim_term(p):
     if kind == "sha1": return "(PcSha1 %s %s)" % (s, cl(r))
     if kind == "utf8": return "(PcUtf8 %s %s)" % (s, cbool(r))
     if kind == "ext": return "(PcExt %s %s)" % (s, clist(r, lambda e: "(%s,%s)" % (cl(e[0]), cparams(e[1]))))
+    if kind == "origin":
+        us = r["us"]
+        if "raises" in us: ust = "UsRaises"
+        else:
+            sc, h, pt = us["ok"]
+            ps = "PortNone" if "none" in pt else ("PortRaises" if "raises" in pt else "(PortSome %s)" % cz(pt["some"]))
+            ust = "(UsOk %s %s %s)" % (cl(sc), copt(h, cl), ps)
+        res = r["res"]
+        rt = "None" if res is None else ("(Some ONull)" if res == "null" else "(Some (OTriple %s %s %s))" % (cl(res[0]), cl(res[1]), copt(res[2], cz)))
+        return "(PcOrigin %s %s %s)" % (s, ust, rt)
+    if kind == "sameorigin":
+        q = json.loads(bytes.fromhex(hx).decode())
+        o = "ONull" if q["origin"] == "null" else "(OTriple %s %s %s)" % (cstr(q["origin"][0]), cstr(q["origin"][1]), copt(q["origin"][2], cz))
+        return "(PcSameOrigin %s %s %s)" % (o, clist(q["allowed"], cstr), cbool(r))
     if kind == "header":
         return "(PcHeader %s %s)" % (s, copt(r, lambda x: "(%s,%s)" % (cl(x[0]), clist(x[1], lambda h: "(%s,(%s,%d))" % (cl(h[0]), cl(h[1]), h[2])))))
     raise ValueError(kind)
@@ -440,6 +454,50 @@ def spec_to_server_case(spec, chunks=None):
         opts["allowNullOrigin"] = True            # setProtocolOptions(...) resets it to False whenever it is not passed explicitly
     return {"opts": opts, "factory": spec["factory"], "others": spec["others"], "policy": spec["policy"], "accept": spec["accept"],
             "chunks": [c.hex() for c in (chunks if chunks is not None else [data])]}, data
+
+
+# ---------------------------------------------------------------- the origin as (scheme, host, port-or-absent)
+ORIGIN_PORTS = [None, "", "0", "00", "1", "79", "80", "080", "81", "443", "444", "8080", "65535", "65536", "99999", "abc", "-1", "+80", "8 0", "\xb2"]
+ORIGIN_ALLOW = [["http://example.com:80", "https://*.example.com:443", "http://localhost:8080"],      # default ports named explicitly
+                ["http://example.com:*", "https://www.example.com:*"],                              # any explicit or default port
+                ["http://example.com", "*://*:0", "https://www.example.com:65535"],                 # no port in the pattern (never matches) / port 0 / top port
+                ["*"]]
+
+
+def origin_text(scheme, host, port):
+    return f"{scheme}://{host}" + ("" if port is None else ":" + port)
+
+
+def origin_matrix_oracle(scheme, host, port, allowed):
+    """independent reading: the origin is the triple (scheme, host, port); the port is the explicit number when the Origin carries one
+    (0 included), the scheme's default only when it carries none; a port that is not 0..65535 in ASCII digits is no origin at all"""
+    import fnmatch
+    if port is None or port == "":
+        num = {"http": 80, "https": 443}[scheme]
+    elif port.isascii() and port.isdigit() and int(port) <= 65535:
+        num = int(port)
+    else:
+        return False
+    return any(fnmatch.fnmatchcase(f"{scheme}://{host}:{num}", pat) for pat in allowed)
+
+
+def origin_prims(rng, n):
+    out = []
+    for scheme in ["http", "https", "HTTP", "ws", "ftp", "file", ""]:
+        for host in ["example.com", "www.example.com", "[::1]", "", "EXAMPLE.com"]:
+            for port in ORIGIN_PORTS:
+                out.append(["origin", origin_text(scheme, host, port).encode("latin-1").hex()])
+    for s in ["null", "NULL", "Null ", "", "example.com:80", "//example.com:0", "http:/example.com", "http://user:0@example.com:0", "http://example.com:0:0", "http://example.com:0/x"]:
+        out.append(["origin", s.encode("latin-1").hex()])
+    trips = [(sc, h, p) for sc in ["http", "https", "ws"] for h in ["example.com", "www.example.com", "a.example.com.evil.com"] for p in [None, 0, 1, 80, 443, 8080, 65535]]
+    for allowed in ORIGIN_ALLOW + [[], ["http://*:80", "ws://example.com:None"], ["https://*.example.com:44*"]]:
+        for t in trips:
+            out.append(["sameorigin", json.dumps({"origin": list(t), "allowed": allowed}).encode().hex()])
+        out.append(["sameorigin", json.dumps({"origin": "null", "allowed": allowed}).encode().hex()])
+    for i in range(n):
+        t = [rng.choice(["http", "https"]), rng.choice(["example.com", "x.example.com"]), rng.choice([None, 0, 80, 443, rng.randint(0, 65535)])]
+        out.append(["sameorigin", json.dumps({"origin": t, "allowed": [rng.choice(["http", "https", "*"]) + "://" + rng.choice(["example.com", "*.example.com", "*"]) + ":" + rng.choice(["*", "0", "80", "443", "8*", "None"])]}).encode().hex()])
+    return out
 
 
 def cuts_of(rng, data, n):
@@ -743,6 +801,18 @@ def build_cases(ck):
                     case["timeout"] = True
                 S.append((case, {"name": "grammar/" + name, "expect": ex, "key": spec["key"], "protocols": spec["protocols"], "exts": spec["exts"],
                                  "group": g, "data": data.hex(), "rich": rep > 0}))
+    # origin matrix: scheme x host x port text (absent / empty / boundary numbers / not a port) x allow-lists, independent oracle
+    for ai, allowed in enumerate(ORIGIN_ALLOW):
+        for scheme in ["http", "https"]:
+            for host in ["example.com", "www.example.com", "localhost"]:
+                for port in ORIGIN_PORTS:
+                    spec = base_server_spec(rng)
+                    spec["opts"]["allowedOrigins"] = allowed; spec["opts"]["allowNullOrigin"] = False
+                    hset(spec, "Origin", origin_text(scheme, host, port))
+                    case, data = spec_to_server_case(spec)
+                    ok = origin_matrix_oracle(scheme, host, port, allowed)
+                    S.append((case, {"name": f"grammar/origin-triple/{'absent' if port in (None, '') else 'port-' + port.strip()}", "expect": "open" if ok else "reject",
+                                     "key": spec["key"], "protocols": [], "exts": [], "group": group(), "data": data.hex(), "matrix": True}))
     # flash policy
     for i, (flash, chunks) in enumerate([(True, [b"<policy-file-request/>\x00"]), (False, [b"<policy-file-request/>\x00"]), (True, [b"<policy-file-", b"request/>\x00"]),
                                          (True, [b"xx<policy-file-request/>\x00yy"]), (True, [b"<policy-file-request/>"]), (True, [b"<policy-file-request/>\x00\r\n\r\n"]),
@@ -1104,6 +1174,7 @@ def model_compare(ck, S, Cc, E, RES):
                 nm = meta["name"]
                 if meta.get("corpus"): pr = 0
                 elif x["outcome"]["kind"] in ("escaped", "stuck", "status", "redirect", "flash"): pr = 1
+                elif meta.get("matrix"): pr = 1 if (i % 7 == 0 or "port-0" in nm) else 5
                 elif nm.startswith("grammar/") and not meta.get("rich") and len(case["chunks"]) == 1: pr = 1
                 elif nm.startswith("flash"): pr = 1
                 elif nm == "raw" and meta["seg"] == 0: pr = 3
@@ -1185,7 +1256,7 @@ def run(ck):
         "not modelled: TLS, proxies (STATE_PROXY_CONNECTING), unix-socket URLs, x-forwarded-for (only sets self.peer), the frame parser that consumes octets following the header block (C01/C02), reason phrases of HTTP errors",
     ]
     S, Cc, E = build_cases(ck)
-    prims = prim_inputs(ck.rng("prims"), 25 if ck.quick() else 300)
+    prims = prim_inputs(ck.rng("prims"), 25 if ck.quick() else 300) + origin_prims(ck.rng("origin"), 100 if ck.quick() else 2000)
     wild = wild_inputs(ck.rng("wild"), 300 if ck.quick() else 3000)
     ck.log(f"cases: server {len(S)}, client {len(Cc)}, e2e {len(E)}, prims {len(prims)}, wild {len(wild)}")
     MULTI = multi_cases(ck.rng("multi"), 60 if ck.quick() else 600)
@@ -1246,7 +1317,7 @@ def run(ck):
     mt, mi = [], []
     for fw in ("tx", "aio"):
         for case, x in zip(MULTI, RES[fw]["multi"]):
-            if "trace" in x:
+            if "trace" in x and all(t["count"] >= 0 for t in x["trace"]):      # a negative counter is reported by analyse_multi; N has no literal for it
                 ops = ";".join("FOpen" if o[0] == "open" else "(FLose %d%%nat)" % o[1] for o in case["ops"])
                 exp = ";".join("(%d,[%s])" % (t["count"], ";".join(cbool(st == "OPEN") for st in t["states"])) for t in x["trace"])
                 mt.append("(%d,[%s],[%s])" % (case["max"], ops, exp)); mi.append((fw, case))
